@@ -14,6 +14,9 @@ CHECKS = {
  "C02": dict(engine="mem", category="model_checking", technique="exhaustive enumeration of access form x effective address (every offset within 9 bytes of both ends of every region, null, wrap-around, 2^63 away) x base+offset decomposition x region layout, each run on the interpreter against a containment predicate, with guard pages and canaries around every buffer",
    text="One transition (one access) per case, complete product of the alphabets. Expected: Ok iff all bytes lie inside packet, metadata buffer, stack or one registered range; on Ok the loaded value / stored bytes must be exact and nothing else may change; on Err every byte of every buffer and all canaries must be unchanged; never a panic; a fault kills the worker and is attributed to the case.",
    design_ref="DESIGN.md section 4 C02"),
+ "C09": dict(engine="ctx", category="model_checking", technique="exhaustive enumeration of VM kind x engine x every ordered pair of non-overlapping offsets x probe program x sequences of three executions with different packets (same address/different length, different address) plus a set_program round trip; each execution compared with values computed from the caller's buffer addresses",
+   text="States = (VM kind, offsets, engine, probe, packet triple); each execution is a transition whose observation (r1, the two pointers in the fixed buffer, end-start, ldabs of first/last byte, both ends of the 512-byte stack) must equal the value the harness computes from the addresses of the buffers it passed. Compiled code runs in forked children.",
+   design_ref="DESIGN.md section 4 C09"),
  "C11": dict(engine="mem", category="model_checking", technique="same access x address x layout enumeration as C02 (no allowed ranges), each case compiled with Cranelift and executed in a forked child; observation = wait status + shared-memory arena",
    text="In-bounds: the child returns and the value/bytes are those of the access. Out of bounds: the child must die with SIGILL (the trap) and the arena, inspected by the parent through the shared mapping, must be byte-for-byte unchanged; SIGSEGV/SIGBUS or a changed canary means the access was attempted.",
    design_ref="DESIGN.md section 4 C11"),
@@ -50,6 +53,7 @@ CHECKS = {
 }
 
 ENGINES = {
+ "ctx": ("mc/src/ctxeng.rs", "kind A: VM-kind x engine x configuration x execution-sequence explorer"),
  "mem": ("mc/src/memeng.rs", "kind A: access x address x layout explorer with guard-page arena and fork isolation"),
  "bytes": ("mc/src/byteseng.rs", "kind A: small-scope byte-string explorer with reference verifier predicate (mc/src/refverif.rs)"),
  "isa": ("mc/src/isaeng.rs", "kind A: transition-conformance of a reference machine (mc/src/refmodel.rs): bounded exhaustive enumeration of (pre-state x instruction) transitions, each replayed on interpreter / JIT / Cranelift"),
